@@ -123,7 +123,7 @@ def run(ctx):
     c01 = __import__("harness.c01", fromlist=["regen"])
     rng = ctx.rng
     quick = ctx.tier == "quick"
-    ctx.rule = ("generated 16-row tables vs the Python function on angle triples k*pi/12 x passive; ordered pairs from {generic, axial}^2 plus identical and aligned pairs x "
+    ctx.rule = ("generated 16-row tables vs the Python function on angle triples k*pi/12 x passive; ordered pairs from {generic, axial}^2 plus identical, aligned, mirrored (B = S A S^T, S a Cartesian mirror / two-fold axis) and rotated-copy pairs x "
                 "4 orders x {zyz, zxz} x {active, passive}: double-coset relation for generic pairs (all 17 angle sets), zero / flip for identical and aligned, the "
                 "component along the symmetry axis when a partner is axially symmetric")
     ctx.trusted += ["py2v nmr_utils translator (shared with C01/C02/C08); scipy Rotation is an oracle", "_tryallanglestest / _compute_rotation (the search over equivalent "
@@ -150,11 +150,18 @@ def run(ctx):
     ctx.oblige("generated _equivalent_relative_euler == Python function on k*pi/12 triples [%d cases]" % len(exprs), "correspondence", nbad == 0, "%d disagree; first: %s" % (nbad, first))
     NP = 40 if quick else 1000
     for t in range(NP):
-        ka, kb = [("generic", "generic"), ("axial", "generic"), ("generic", "axial"), ("axial", "axial"), ("identical", ""), ("aligned", "")][t % 6]
+        ka, kb = [("generic", "generic"), ("axial", "generic"), ("generic", "axial"), ("axial", "axial"), ("identical", ""), ("aligned", ""),
+                  ("mirror", ""), ("copy", "")][t % 8]
         for order in ("i", "d", "h", "n"):
             if ka == "identical":
                 A, evA, RA_ = mk_tensor(rng, "generic", order)
                 B = NMRTensor(np.array(A._symm).copy(), order=order)
+            elif ka in ("mirror", "copy"):
+                # symmetry-equivalent sites: the same principal values in a mirrored / rotated frame
+                A, evA, RA_ = mk_tensor(rng, rng.choice(["generic", "generic", "axial"]), order)
+                S = np.diag(rng.choice([(1, 1, -1), (1, -1, 1), (-1, 1, 1), (-1, -1, 1), (1, -1, -1), (-1, 1, -1)])) if ka == "mirror" else rand_rot(rng)
+                TB_ = S @ np.array(A._symm) @ S.T
+                B = NMRTensor((TB_ + TB_.T) / 2, order=order)
             elif ka == "aligned":
                 A, evA, RA_ = mk_tensor(rng, "generic", order)
                 B, _e, _r = mk_tensor(rng, "generic", order, R=RA_)
